@@ -257,7 +257,11 @@ func (r *mdRunner) run(bi int, beh []map[string]any, compare bool, res *vh.Resul
 				keyIDs[k] = map[int]bool{}
 			}
 			keyIDs[k][id] = true
-			ur, err := r.env.Node.MapPublish(ctx, r.ch, mdKey(k), centrifuge.MapPublishOptions{Data: r.pl.get(id), Tags: map[string]string{"t": tag}, UseDelta: true})
+			ud := true
+			if v, ok := step["ud"]; ok {
+				ud = vh.Bool(v)
+			}
+			ur, err := r.env.Node.MapPublish(ctx, r.ch, mdKey(k), centrifuge.MapPublishOptions{Data: r.pl.get(id), Tags: map[string]string{"t": tag}, UseDelta: ud})
 			if err != nil {
 				drift("publish: "+err.Error(), nil)
 				break
